@@ -8,7 +8,7 @@
     net/mail and of the stores and for EVERY over-quota set. *)
 From Coq Require Import String Ascii List Bool ZArith NArith.
 From Raven Require Import Base.GoStr Model.Lmtp Spec.LmtpDialog Spec.LmtpStream
-     Proof.LmtpData Proof.LmtpDialog Proof.LmtpTx.
+     Proof.LmtpData Proof.LmtpDialog Proof.LmtpTx Proof.LmtpWrite.
 Import ListNotations.
 Local Open Scope Z_scope.
 
@@ -92,6 +92,24 @@ Theorem c16_transaction_spec : forall accepts delivers over c s dl args b term r
         (fst (run accepts delivers over c s MCmd (dl :: stuff b ++ term :: rest))) = true.
 Proof. intros accepts delivers over c s dl args b term rest _. apply transaction_tx_ok. Qed.
 Print Assumptions c16_transaction_spec.
+
+(** liveness of the dialogue ("in step with the client"): after the server has
+    processed ANY sequence of complete lines and waits for more input, every
+    reply owed for those lines has reached the client - nothing stays in the
+    write buffer - whatever the lines are (blank lines after a command or
+    after the terminating dot included).  [run_open] is the reply trace of
+    c16_sequencing / c16_replies_per_recipient while the connection is open. *)
+Theorem c16_no_unsent_replies : forall accepts delivers over c ls,
+  w_buf (run_io accepts delivers over always_flush c st0 MCmd wr0 ls) = [] /\
+  w_sent (run_io accepts delivers over always_flush c st0 MCmd wr0 ls) =
+    run_open accepts delivers over c st0 MCmd ls.
+Proof. exact no_unsent_replies. Qed.
+Print Assumptions c16_no_unsent_replies.
+
+Theorem c16_open_trace_is_prefix : forall accepts delivers over c ls,
+  exists t, fst (run accepts delivers over c st0 MCmd ls) = run_open accepts delivers over c st0 MCmd ls ++ t.
+Proof. intros. apply run_open_prefix. Qed.
+Print Assumptions c16_open_trace_is_prefix.
 
 Definition yes : str -> bool := fun _ => true.
 Definition no : str -> bool := fun _ => false.
@@ -212,3 +230,17 @@ Example c16_quota_replies_out_of_order_rejected :
              (250, S_ "2.0.0 Message accepted for delivery to <alice@example.com>");
              (250, S_ "2.0.0 Message accepted for delivery to <carol@example.com>"); (221, [])]%N = false.
 Proof. vm_compute. reflexivity. Qed.
+
+(** regression (seeded change C16-4): a flush that is skipped while more input
+    of the same client write is still unread leaves owed replies unsent when
+    that input is only a blank line: after "<end of data>" + blank line the two
+    per-recipient replies sit in the buffer while the server waits for input *)
+Example c16_conditional_flush_leaves_replies_unsent :
+  let coalesce : list str -> bool := fun rest => match rest with [] => true | _ => false end in
+  let c := {| max_size := 1000; max_rcpts := 5 |} in
+  let s := {| helo := S_ "x"; mail_from := S_ "a@example.com"; mail_seen := true;
+              rcpts := [S_ "u1@example.com"; S_ "u2@example.com"] |} in
+  let w := run_io yes dl_ok no_over coalesce c s (MData d0) wr0 [L "hi"; dot_crlf; L ""] in
+  length (w_buf w) = 2%nat /\ w_sent w = [] /\
+  w_buf (run_io yes dl_ok no_over always_flush c s (MData d0) wr0 [L "hi"; dot_crlf; L ""]) = [].
+Proof. vm_compute. repeat split; reflexivity. Qed.
